@@ -411,15 +411,20 @@ def run_check(spec, res, workdir):
         res.oblige("lean:no-proof-escapes", not hits, "; ".join(hits[:5]))
         theorems = list(spec.get("theorems", [])) + [t for t in theorems_of_modules(spec.get("modules", [])) if t not in spec.get("theorems", [])]
         res.extra["theorems"] = theorems
-        if theorems and not any(n.startswith("lean:module:") and not o for n, o, _ in res.obligations):
-            ax = audit_axioms(pid, spec.get("modules", []), theorems, log)
-            for th in theorems:
+        # theorems of a module that no longer builds are not checked; the others are audited
+        failed_mods = [n[len("lean:module:"):] for n, o, _ in res.obligations if n.startswith("lean:module:") and not o]
+        lost = set(theorems_of_modules(failed_mods)) if failed_mods else set()
+        good_mods = [m for m in spec.get("modules", []) if m not in failed_mods]
+        live = [th for th in theorems if th not in lost]
+        if live and good_mods:
+            ax = audit_axioms(pid, good_mods, live, log)
+            for th in live:
                 a = ax.get(th)
                 good = a is not None and set(a) <= ALLOWED_AXIOMS
                 res.oblige("theorem:" + th, good, "axioms=%s" % a)
             res.extra["axioms"] = ax
-        else:
-            for th in theorems:
+        for th in theorems:
+            if th in lost or not good_mods:
                 res.oblige("theorem:" + th, False, "module did not build")
         if tier == "thorough" and spec.get("modules"):
             for m in spec["modules"]:
